@@ -1,8 +1,8 @@
 CONSTANTS
-  SampleMod = 20
+  SampleMod = 40
   MaxOps = 2
   Scripted = FALSE
-  ExcuseKF = TRUE
+  ExcuseKF = FALSE
   Dump = FALSE
 INIT Init
 NEXT Next
@@ -16,5 +16,6 @@ INVARIANT Inv_C20_ParamsKept
 INVARIANT Inv_C20_Idempotent
 INVARIANT Inv_C20_RenameInert
 INVARIANT Inv_C20_DocInert
+INVARIANT Inv_NoKnownFinding
 INVARIANT Inv_StepsEqFunction
 CHECK_DEADLOCK FALSE
